@@ -10,7 +10,7 @@ import (
 )
 
 func (e *Engine) inlinable(f *ssa.Function) bool {
-	if len(f.Blocks) == 0 || e.recursive[f] {
+	if len(f.Blocks) == 0 || e.selfRecursive(f) {
 		return false
 	}
 	for _, b := range f.Blocks {
@@ -543,7 +543,17 @@ func (fr *Frame) applyContract(i *ssa.Call, callee *ssa.Function, c *Contract, a
 	// termination of recursion
 	if check && e.sameSCC(x.root, callee) && !fr.ghost {
 		decs := c.clauses("decreases")
-		if len(decs) == 0 || len(x.rootDec) == 0 {
+		if c.Flags["structural"] {
+			// structural recursion over an acyclic tree: every pointer/interface argument
+			// of the recursive call is a proper component of a parameter
+			ok := false
+			for _, a := range i.Call.Args {
+				if derivedFromParam(a, 0) {
+					ok = true
+				}
+			}
+			x.assert(g, fmt.Sprintf("%sdecr@%s#%d/structural", site, callee.Name(), k), BoolLit(ok), x.posOf(i.Pos()), "recursive call descends into a component of a parameter (trees are acyclic: frame analysis)")
+		} else if len(decs) == 0 || len(x.rootDec) == 0 {
 			x.assert(g, fmt.Sprintf("%sdecr@%s#%d/missing-variant", site, callee.Name(), k), TFalse, x.posOf(i.Pos()), "recursive call without decreases clause")
 		} else {
 			d1 := fr.evalClause(callee, decs[0], params, st, g)
@@ -810,4 +820,52 @@ func (fr *Frame) invoke(i *ssa.Call, st *State, g Term) {
 	}
 	x.unsupported("%s: interface method call %s", fr.fn, i.Call.Method.Name())
 	fr.setResult(i, x.havocResultsSig(i.Call.Signature(), "inv"), st)
+}
+
+// derivedFromParam: v is obtained from a parameter by at least one field /
+// element / payload selection.
+func derivedFromParam(v ssa.Value, steps int) bool {
+	for depth := 0; depth < 60; depth++ {
+		switch x := v.(type) {
+		case *ssa.Parameter:
+			return steps > 0
+		case *ssa.FieldAddr:
+			v, steps = x.X, steps+1
+		case *ssa.Field:
+			v, steps = x.X, steps+1
+		case *ssa.IndexAddr:
+			v, steps = x.X, steps+1
+		case *ssa.Index:
+			v, steps = x.X, steps+1
+		case *ssa.UnOp:
+			v = x.X
+		case *ssa.TypeAssert:
+			v = x.X
+		case *ssa.Extract:
+			v = x.Tuple
+		case *ssa.ChangeType:
+			v = x.X
+		case *ssa.MakeInterface:
+			v = x.X
+		case *ssa.Alloc:
+			// a captured parameter variable: follow its single store
+			var src ssa.Value
+			n := 0
+			if refs := x.Referrers(); refs != nil {
+				for _, r := range *refs {
+					if st, ok := r.(*ssa.Store); ok && st.Addr == x {
+						n++
+						src = st.Val
+					}
+				}
+			}
+			if n != 1 {
+				return false
+			}
+			v = src
+		default:
+			return false
+		}
+	}
+	return false
 }
